@@ -420,7 +420,7 @@ def greater_equal(x, y):
 
 
 def isfinite(x):
-    return logical_not(isinf(x))
+    return logical_not(logical_or(isinf(x), isnan(x)))
 
 
 def isinf(x):
